@@ -44,9 +44,10 @@ VARIABLES
   goaway,    \* -1, or last-stream-id of the GOAWAY the server sent
   goawayActed, \* the GOAWAY has been delivered and the client has run since
   credit,    \* [Sids \cup {0} -> Nat] credit returned by the client (WINDOW_UPDATE increments)
-  lastStream \* highest stream id opened
+  lastStream, \* highest stream id opened
+  returned   \* streams whose caller has got its outcome (whatever it was)
 
-vars == <<pendSet, limit, acked, iws, mfs, st, swin, cwin, sentBody, respHead, respLen, goaway, goawayActed, credit, lastStream>>
+vars == <<pendSet, limit, acked, iws, mfs, st, swin, cwin, sentBody, respHead, respLen, goaway, goawayActed, credit, lastStream, returned>>
 
 Unlimited == 1000000
 Open == {s \in Sids : st[s] \in {"open", "hc", "hs"}}
@@ -57,12 +58,12 @@ Init ==
   /\ st = [s \in Sids |-> "idle"] /\ swin = [s \in Sids |-> 0] /\ cwin = DefaultWin
   /\ sentBody = [s \in Sids |-> 0] /\ respHead = [s \in Sids |-> FALSE] /\ respLen = [s \in Sids |-> 0]
   /\ goaway = -1 /\ goawayActed = FALSE
-  /\ credit = [s \in Sids \cup {0} |-> 0] /\ lastStream = -1
+  /\ credit = [s \in Sids \cup {0} |-> 0] /\ lastStream = -1 /\ returned = {}
 
 (* ---- server frames (environment) ---- *)
 SSettings(mcs, w, f) ==
   /\ pendSet' = Append(pendSet, [mcs |-> mcs, iws |-> w, mfs |-> f])
-  /\ UNCHANGED <<limit, acked, iws, mfs, st, swin, cwin, sentBody, respHead, respLen, goaway, goawayActed, credit, lastStream>>
+  /\ UNCHANGED <<limit, acked, iws, mfs, st, swin, cwin, sentBody, respHead, respLen, goaway, goawayActed, credit, lastStream, returned>>
 
 (* the client acknowledges the oldest outstanding SETTINGS: from now on they bind it *)
 CAck ==
@@ -75,7 +76,7 @@ CAck ==
      /\ swin' = [x \in Sids |-> IF st[x] \in {"open", "hs"} /\ s.iws >= 0 THEN swin[x] + (s.iws - iws) ELSE swin[x]]
   /\ acked' = TRUE
   /\ pendSet' = Tail(pendSet)
-  /\ UNCHANGED <<st, cwin, sentBody, respHead, respLen, goaway, goawayActed, credit, lastStream>>
+  /\ UNCHANGED <<st, cwin, sentBody, respHead, respLen, goaway, goawayActed, credit, lastStream, returned>>
 
 (* StreamCap: one stream until the server's SETTINGS are acknowledged, then its limit, never > 100 *)
 Cap == IF ~acked THEN 1 ELSE Min(limit, LocalCap)
@@ -86,7 +87,7 @@ CHeaders(s, end) ==
   /\ st' = [st EXCEPT ![s] = IF end THEN "hc" ELSE "open"]
   /\ swin' = [swin EXCEPT ![s] = iws]
   /\ lastStream' = s
-  /\ UNCHANGED <<pendSet, limit, acked, iws, mfs, cwin, sentBody, respHead, respLen, goaway, goawayActed, credit>>
+  /\ UNCHANGED <<pendSet, limit, acked, iws, mfs, cwin, sentBody, respHead, respLen, goaway, goawayActed, credit, returned>>
 
 (* FlowSafe *)
 CData(s, n, end) ==
@@ -97,46 +98,54 @@ CData(s, n, end) ==
   /\ swin' = [swin EXCEPT ![s] = @ - n] /\ cwin' = cwin - n
   /\ sentBody' = [sentBody EXCEPT ![s] = @ + n]
   /\ st' = [st EXCEPT ![s] = IF end THEN (IF @ = "hs" THEN "closed" ELSE "hc") ELSE @]
-  /\ UNCHANGED <<pendSet, limit, acked, iws, mfs, respHead, respLen, goaway, goawayActed, credit, lastStream>>
+  /\ UNCHANGED <<pendSet, limit, acked, iws, mfs, respHead, respLen, goaway, goawayActed, credit, lastStream, returned>>
 
 SWindow(s, n) ==     \* WINDOW_UPDATE from the server (s = 0: the connection)
   /\ IF s = 0 THEN cwin' = cwin + n /\ UNCHANGED swin
               ELSE swin' = [swin EXCEPT ![s] = @ + n] /\ UNCHANGED cwin
-  /\ UNCHANGED <<pendSet, limit, acked, iws, mfs, st, sentBody, respHead, respLen, goaway, goawayActed, credit, lastStream>>
+  /\ UNCHANGED <<pendSet, limit, acked, iws, mfs, st, sentBody, respHead, respLen, goaway, goawayActed, credit, lastStream, returned>>
 
 SHeaders(s, final, end) ==
   /\ s \in Sids /\ st[s] \in {"open", "hc"}
   /\ respHead' = [respHead EXCEPT ![s] = @ \/ final]
   /\ st' = [st EXCEPT ![s] = IF end THEN (IF @ = "hc" THEN "closed" ELSE "hs") ELSE @]
-  /\ UNCHANGED <<pendSet, limit, acked, iws, mfs, swin, cwin, sentBody, respLen, goaway, goawayActed, credit, lastStream>>
+  /\ UNCHANGED <<pendSet, limit, acked, iws, mfs, swin, cwin, sentBody, respLen, goaway, goawayActed, credit, lastStream, returned>>
 
 SData(s, n, end) ==
   /\ s \in Sids /\ st[s] \in {"open", "hc"} /\ respHead[s]
   /\ respLen' = [respLen EXCEPT ![s] = @ + n]
   /\ st' = [st EXCEPT ![s] = IF end THEN (IF @ = "hc" THEN "closed" ELSE "hs") ELSE @]
-  /\ UNCHANGED <<pendSet, limit, acked, iws, mfs, swin, cwin, sentBody, respHead, goaway, goawayActed, credit, lastStream>>
+  /\ UNCHANGED <<pendSet, limit, acked, iws, mfs, swin, cwin, sentBody, respHead, goaway, goawayActed, credit, lastStream, returned>>
 
 SRst(s) ==
   /\ s \in Sids /\ st[s] # "idle"
   /\ st' = [st EXCEPT ![s] = "reset"]
-  /\ UNCHANGED <<pendSet, limit, acked, iws, mfs, swin, cwin, sentBody, respHead, respLen, goaway, goawayActed, credit, lastStream>>
+  /\ UNCHANGED <<pendSet, limit, acked, iws, mfs, swin, cwin, sentBody, respHead, respLen, goaway, goawayActed, credit, lastStream, returned>>
 
 CRst(s) ==
   /\ s \in Sids /\ st[s] # "idle"
   /\ st' = [st EXCEPT ![s] = "reset"]
-  /\ UNCHANGED <<pendSet, limit, acked, iws, mfs, swin, cwin, sentBody, respHead, respLen, goaway, goawayActed, credit, lastStream>>
+  /\ UNCHANGED <<pendSet, limit, acked, iws, mfs, swin, cwin, sentBody, respHead, respLen, goaway, goawayActed, credit, lastStream, returned>>
 
 SGoaway(last) ==
   /\ goaway' = last
-  /\ UNCHANGED <<pendSet, limit, acked, iws, mfs, st, swin, cwin, sentBody, respHead, respLen, goawayActed, credit, lastStream>>
+  /\ UNCHANGED <<pendSet, limit, acked, iws, mfs, st, swin, cwin, sentBody, respHead, respLen, goawayActed, credit, lastStream, returned>>
 
 GoawayActed ==       \* the GOAWAY was delivered and the client has had its turn
   /\ goaway >= 0 /\ goawayActed' = TRUE
-  /\ UNCHANGED <<pendSet, limit, acked, iws, mfs, st, swin, cwin, sentBody, respHead, respLen, goaway, credit, lastStream>>
+  /\ UNCHANGED <<pendSet, limit, acked, iws, mfs, st, swin, cwin, sentBody, respHead, respLen, goaway, credit, lastStream, returned>>
 
 CWindow(s, n) ==     \* credit returned by the client
   /\ credit' = [credit EXCEPT ![s] = @ + n]
-  /\ UNCHANGED <<pendSet, limit, acked, iws, mfs, st, swin, cwin, sentBody, respHead, respLen, goaway, goawayActed, lastStream>>
+  /\ UNCHANGED <<pendSet, limit, acked, iws, mfs, st, swin, cwin, sentBody, respHead, respLen, goaway, goawayActed, lastStream, returned>>
+
+(* the CLIENT closes the connection: nobody is using it any more.  C14 "after GOAWAY ... earlier streams may
+   finish": every stream the server still answers (all of them before a GOAWAY, those at or below
+   last-stream-id after it) has given its caller an outcome or is the closing caller's own; the streams the GOAWAY refused are re-sent
+   elsewhere and do not count.  (Nothing is injected in these executions: no failure forces a close.) *)
+CClose(own) ==      \* own: the streams of the caller whose task closes it (as part of its own clean-up)
+  /\ \A s \in Sids : (st[s] # "idle" /\ (goaway < 0 \/ s <= goaway)) => (s \in returned \/ s \in own)
+  /\ UNCHANGED vars
 
 (* ---- what a caller got back ---- *)
 (* Isolation: it returned successfully only with its own stream's complete answer *)
